@@ -1,0 +1,157 @@
+//! Verification hooks (cargo feature `verif-hooks`, add-only): public wrappers around the
+//! crate-private `RichIndexer` / `SQLXPool` so that an external harness can drive the real
+//! append / rollback / query code over a sqlite database. Nothing here changes behaviour; with the
+//! feature off this module does not exist.
+use crate::indexer::RichIndexer;
+use crate::store::SQLXPool;
+use crate::{AsyncRichIndexerHandle, RichIndexerHandle};
+use ckb_app_config::RichIndexerConfig;
+use ckb_async_runtime::Handle;
+use ckb_indexer_sync::{CustomFilters, Error, IndexerSync};
+use ckb_types::{
+    H256,
+    core::{BlockNumber, BlockView},
+    packed::Byte32,
+};
+use sqlx::Row;
+
+/// The rich-indexer (`RichIndexer`, the `IndexerSync` implementation the node's sync service
+/// drives) connected to its own database.
+#[derive(Clone)]
+pub struct VerifRichIndexer {
+    store: SQLXPool,
+    indexer: RichIndexer,
+    async_runtime: Handle,
+}
+
+impl VerifRichIndexer {
+    /// Connect to the database named by `config` (tables and migrations as in
+    /// `RichIndexerService::new`) with optional rhai filters (same meaning as
+    /// `IndexerConfig::{block_filter, cell_filter}`), without tx-pool overlay.
+    pub fn open(
+        config: &RichIndexerConfig,
+        async_runtime: Handle,
+        block_filter: Option<&str>,
+        cell_filter: Option<&str>,
+    ) -> Result<Self, String> {
+        let mut store = SQLXPool::default();
+        async_runtime
+            .block_on(store.connect(config))
+            .map_err(|err| err.to_string())?;
+        let indexer = RichIndexer::new(
+            store.clone(),
+            None,
+            CustomFilters::new(block_filter, cell_filter),
+            async_runtime.clone(),
+            usize::MAX,
+        );
+        Ok(VerifRichIndexer {
+            store,
+            indexer,
+            async_runtime,
+        })
+    }
+
+    /// `RichIndexer::append`
+    pub fn append(&self, block: &BlockView) -> Result<(), Error> {
+        IndexerSync::append(&self.indexer, block)
+    }
+
+    /// `RichIndexer::rollback`
+    pub fn rollback(&self) -> Result<(), Error> {
+        IndexerSync::rollback(&self.indexer)
+    }
+
+    /// `RichIndexer::tip`
+    pub fn tip(&self) -> Result<Option<(BlockNumber, Byte32)>, Error> {
+        IndexerSync::tip(&self.indexer)
+    }
+
+    /// A `RichIndexerHandle` over the same database, as `RichIndexerService::handle` builds it.
+    pub fn handle(&self, request_limit: usize) -> RichIndexerHandle {
+        RichIndexerHandle::new(
+            self.store.clone(),
+            None,
+            self.async_runtime.clone(),
+            request_limit,
+        )
+    }
+
+    /// An `AsyncRichIndexerHandle` (the RPC query side) over the same database, as
+    /// `RichIndexerService::async_handle` builds it.
+    pub fn async_handle(&self, request_limit: usize) -> AsyncRichIndexerHandle {
+        AsyncRichIndexerHandle::new(self.store.clone(), None, request_limit)
+    }
+
+    /// The runtime handle the indexer blocks on.
+    pub fn runtime(&self) -> &Handle {
+        &self.async_runtime
+    }
+
+    /// Every row of every table (sqlite only), rendered with sqlite's `quote()` column by column
+    /// and ordered by primary key: `(table name, rows)` in table-name order.
+    pub fn dump(&self) -> Result<Vec<(String, Vec<String>)>, String> {
+        self.async_runtime.block_on(async {
+            let tables: Vec<String> = self
+                .store
+                .fetch_all(SQLXPool::new_query(
+                    "SELECT name FROM sqlite_master WHERE type = 'table' \
+                     AND name NOT LIKE 'sqlite_%' AND name NOT LIKE '_sqlx_%' ORDER BY name",
+                ))
+                .await
+                .map_err(|err| err.to_string())?
+                .iter()
+                .map(|row| row.get::<String, _>(0))
+                .collect();
+            let mut out = Vec::with_capacity(tables.len());
+            for table in tables {
+                let sql = format!("SELECT name FROM pragma_table_info('{table}') ORDER BY cid");
+                let expr = self
+                    .store
+                    .fetch_all(SQLXPool::new_query(&sql))
+                    .await
+                    .map_err(|err| err.to_string())?
+                    .iter()
+                    .map(|row| {
+                        let name = row.get::<String, _>(0);
+                        format!("'{name}=' || quote(\"{name}\")")
+                    })
+                    .collect::<Vec<_>>()
+                    .join(" || ' ' || ");
+                let sql = format!("SELECT {expr} FROM \"{table}\" ORDER BY rowid");
+                let rows = self
+                    .store
+                    .fetch_all(SQLXPool::new_query(&sql))
+                    .await
+                    .map_err(|err| err.to_string())?
+                    .iter()
+                    .map(|row| row.get::<String, _>(0))
+                    .collect();
+                out.push((table, rows));
+            }
+            Ok(out)
+        })
+    }
+}
+
+impl IndexerSync for VerifRichIndexer {
+    fn tip(&self) -> Result<Option<(BlockNumber, Byte32)>, Error> {
+        IndexerSync::tip(&self.indexer)
+    }
+
+    fn append(&self, block: &BlockView) -> Result<(), Error> {
+        IndexerSync::append(&self.indexer, block)
+    }
+
+    fn rollback(&self) -> Result<(), Error> {
+        IndexerSync::rollback(&self.indexer)
+    }
+
+    fn get_identity(&self) -> &str {
+        self.indexer.get_identity()
+    }
+
+    fn set_init_tip(&self, init_tip_number: u64, init_tip_hash: &H256) {
+        self.indexer.set_init_tip(init_tip_number, init_tip_hash)
+    }
+}
